@@ -114,7 +114,7 @@ def main() -> int:
             t = sh([sys.executable.replace("python3-vt", "python"), "-m", "pytest", "-q", "-x", "-p", "no:cacheprovider", "--timeout=900"], cwd=WT, env=dict(os.environ, PYTHONPATH=os.path.join(WT, "src")))
             entry["suite_passes"] = t.returncode == 0
         t0 = time.time()
-        env = dict(os.environ, ZORG_SRC=os.path.join(WT, "src"))
+        env = dict(os.environ, ZORG_SRC=os.path.join(WT, "src"), ZSIM_NO_MINIMISE="1")
         p = sh([os.path.join(HERE, "check"), pid, "--tier", args.tier, "--no-selftest"], env=env, cwd=HERE)
         entry["exit"] = p.returncode
         entry["wall_s"] = round(time.time() - t0, 1)
